@@ -25,16 +25,24 @@ Theorem C16_dotted_wf : forall s n,
 Proof. exact dotted_wf. Qed.
 Print Assumptions C16_dotted_wf.
 
-(* the wire decoder, through any pointer chain *)
+(* the wire decoder, through any pointer chain.  The cursor's remaining octets are octets
+   too (in Rust the cursor is a position in the same &[u8]; the model's cursor carries its
+   own list, and without this hypothesis [decode_name 1 [] {| cpos := 0; crest := [1;300;0] |}]
+   yields the label [300]) *)
 Theorem C16_wire_wf : forall hops bs c n c',
-  Forall (fun b => b < 256) bs -> decode_name hops bs c = Ok (n, c') -> wf_name n.
+  Forall (fun b => b < 256) bs -> Forall (fun b => b < 256) (crest c) ->
+  decode_name hops bs c = Ok (n, c') -> wf_name n.
 Proof. exact wire_wf. Qed.
 Print Assumptions C16_wire_wf.
 
-(* joining a relative name to an origin *)
+(* joining a relative name to an origin.  The result is always well formed; it ends with the
+   origin's labels when the origin is ASCII and dot-free: the origin is re-read through its
+   dotted text, so an origin label holding octet 200 comes back as its UTF-8 bytes [195;136]
+   and one holding octet 46 is split in two (counterexamples: origins [[200];[]] and
+   [[46;97];[]] with s = "x") *)
 Theorem C16_join : forall o s n,
   wf_name o -> Forall scalar s -> from_relative_dotted_string o s = Some n ->
-  wf_name n /\ (ends_with_dot s = false -> is_suffix (labels o) (labels n)).
+  wf_name n /\ (ends_with_dot s = false -> ascii_nodot o -> is_suffix (labels o) (labels n)).
 Proof. exact join_wf. Qed.
 Print Assumptions C16_join.
 
